@@ -885,8 +885,17 @@ fn main() {
                 ("rows-flip", "≡(⊂:) ¯2.5 ↘1 map [1 2] [3 4]", false),
                 // witness of the seeded mutation C01_count_unique_eq1_allsame
                 ("one-unique-eq", "=1⧻◴ ▽0 [1 2 3]", true),
-                // still open
+                // repaired in round 5: d541d8e (reduce-table with NaN), b393eee (rows on rowless arrays)
                 ("reduce-table", "/↥⊞- [1 1] [NaN]", false),
+                ("reduce-table", "/↧⊞- [1 1] [NaN]", false),
+                ("sort-up", "≡(⊏⍏.) \"\"", true),
+                ("sort-down", "≡(⊏⍖.) ↯0_0 0", true),
+                ("square-abs", "≡(×.⌵) \"\"", true),
+                ("pow-neg1", "≡(⊢ⁿ¯1⍆) ↯0_1 □0", true),
+                ("neg-abs", "≡(⊸(¯⌵□)) []", true),
+                // still open
+                ("last-rise", "≡(⊸(⊣⍏)) ↯0_3_2 0", true),
+                ("sort-down", "≡(≡(⊏⍖.)) ↯0_2_0 0", true),
                 ("conjoin-inventory", "/◇⊂⍚(⊂0) []", true),
                 ("reduce-content", "≡(¤/◇⊂) []", true),
                 ("reduce-content", "/◇⊂ ↯0 □0", true),
@@ -896,9 +905,7 @@ fn main() {
                 ("split-by-scalar-lit", "⊜⧻≠0. {1 2}", false),
                 ("square-abs", "×.⌵ [ℂ3 2 ℂ1 2]", false),
                 ("square-abs", "×.⌵ \"\"", true),
-                ("square-abs", "≡(×.⌵) \"\"", true),
                 ("pow-neg1", "ⁿ¯1 \"\"", true),
-                ("sort-up", "≡(⊏⍏.) \"\"", true),
                 ("complex-i", "+×i NaN 2", false),
                 ("complex-i", "+×i \"\" □\"A\"", true),
                 ("memberof-range-deshape", "∊♭₂⇡ [3 4] \"abc\"", false),
